@@ -9,7 +9,7 @@ TIERS = {
     # "tiny" is a development tier (python -c "from harness.props import c06; c06.run('tiny')"), not reachable from ./check
     "tiny":     dict(gen="tiny", mc=["MC_Mapping2D_q2.cfg"], mc_any="MC_Mapping2D_any.cfg", per_structure=2, annot_max_nuc=30),
     "quick":    dict(gen="quick", mc=["MC_Mapping2D_q1.cfg", "MC_Mapping2D_q2.cfg"], mc_any="MC_Mapping2D_any.cfg",
-                     per_structure=14, annot_max_nuc=80),
+                     per_structure=12, annot_max_nuc=80),
     "thorough": dict(gen="thorough", mc=["MC_Mapping2D_t.cfg", "MC_Mapping2D_q2.cfg"], mc_any="MC_Mapping2D_t_any.cfg",
                      per_structure=300, annot_max_nuc=100000),
 }
@@ -65,18 +65,17 @@ def run(tier):
         futs = [ex.submit(lib.mc, "MC_Mapping2D", cfg, sc, expect_violation=v, workers=w) for cfg, v in jobs]
 
         tm, t0 = {}, time.time()
+        fcorpus = ex.submit(m2.corpus_structs)          # parses the corpus while TLC enumerates the domain
         structs, cases = m2.gen_cases(t["gen"], sc)
         tm["gen_s"] = round(time.time() - t0, 1)
-        cstructs = m2.corpus_structs()
+        cstructs = fcorpus.result()
         ccases = m2.corpus_cases(cstructs, len(structs) + 1, t["per_structure"], lib.seed())
         ccases = [c for c in ccases if c["fam"] != "A"
                   or sum(1 for r in cstructs[c["sid"] - len(structs) - 1]["res"] if r["nuc"]) <= t["annot_max_nuc"]]
         structs = structs + cstructs
         allc = cases + ccases
         tm["corpus_s"] = round(time.time() - t0 - tm["gen_s"], 1)
-        t1 = time.time()
-        domain_check(cases, t["gen"], sc)
-        tm["domain_s"] = round(time.time() - t1, 1)
+        fdomain = ex.submit(domain_check, cases, t["gen"], sc)   # TLC re-checks the domain beside the recording
 
         # record and validate in batches (bounded memory); every batch carries the structure table
         tm["record_s"] = tm["trace_s"] = 0.0
@@ -103,6 +102,7 @@ def run(tier):
                         and len(c["bpseq"]["entries"]) < 30][:1 if len(samples) < 3 else 0]
         if nrec != len(allc):
             raise lib.MachineryError(f"{len(allc)} cases generated but {nrec} recorded")
+        fdomain.result()                                 # raises MachineryError if the domain is not the spec's
 
         for (cfg, v), f in zip(jobs, futs):
             r = f.result()
@@ -174,7 +174,7 @@ def replay(doc):
         base["refmode"] = case.get("_refmode", "both")
         if st["kind"] == "corpus":
             st = m2.project_structure(m2.load_corpus(st["name"]), st["name"])
-        rec = m2.finish(st, m2.record((st, base)))
+        rec = m2.finish(st, m2.record(base, st))
         res = lib.trace_validate("Trace_Mapping2D", "Trace_Mapping2D.cfg", [rec], sc, extra_doc={"structs": [st]}, chunks=1)
         rep.add_trace(res, _WithStruct([rec], [base], [st]), "C06")
         rep.cov["samples"] = [rec]
